@@ -127,6 +127,7 @@ func checkC05(w *Worker) {
 	w.appInit()
 	inputs := c05Inputs()
 	c05Schedules(w, inputs)
+	c05Again(w, inputs)
 	baseCache := map[string]AppRun{}
 	dev := 1
 	if w.Tier == "thorough" {
@@ -270,6 +271,61 @@ func c05Schedules(w *Worker, inputs []c05Input) {
 				kind = "success-depends-on-the-schedule"
 			}
 			x.Violate("C05|"+cname+"|"+kind, fmt.Sprintf("input %s\n`%s`\nschedule of the command's goroutines: %v\nplain run:\n%s\nunder this schedule:\n%s", in.Name, c.shell(), s.Trace, base.String(), r.String()), rep)
+		}
+	})
+}
+
+// c05Again: "running any command again ... on every run of the program" also means: in a program that has run other
+// commands before (the e2e tests, a caller of GetApp). An earlier run - any command shape, on the same files or on
+// other files - whose package-level state is kept, then the command: its outcome is the one of a process of its own.
+func c05Again(w *Worker, inputs []c05Input) {
+	baseCache := map[string]AppRun{}
+	other := 0
+	for i, in := range inputs {
+		if in.Name == "names-no-comparator-separates" {
+			other = i
+		}
+	}
+	mk := func(ii, ci int) appCase {
+		in := inputs[ii]
+		args := append([]string{"--no-color", "--today", "2021/01/27"}, in.Extra...)
+		args = append(args, c05Cmds[ci]...)
+		return appCase{Args: args, Files: map[string]string{"food.yaml": in.Book, "log.yaml": in.Log}, SortedMaps: true}
+	}
+	w.Explore("again-after-an-earlier-run-in-the-same-process", ExploreOpts{ShardDepth: 3}, func(x *Exec) {
+		x.NoConfirm = true // (a single run of the binary cannot reproduce a sequence of runs)
+		ii := x.Choose(len(inputs), "input:input")
+		ci := x.Choose(len(c05Cmds), "input:command")
+		ei := x.Choose(len(c05Cmds), "event:earlier-command")
+		eo := x.Choose(2, "event:earlier-run-on-other-files")
+		c := mk(ii, ci)
+		key := fmt.Sprintf("%d|%d", ii, ci)
+		base, ok := baseCache[key]
+		if !ok {
+			base = runAppDefaultSchedule(w, c)
+			baseCache[key] = base
+		}
+		ein := ii
+		if eo == 1 {
+			ein = other
+		}
+		ec := mk(ein, ei)
+		runApp(ec) // (in a process of its own state: reset before it)
+		appKeepState = true
+		r := func() AppRun {
+			defer func() { appKeepState = false }()
+			return runApp(c)
+		}()
+		x.Obs(r.Key())
+		x.Case(fmt.Sprint(key, ei, eo), true)
+		if r.Key() != base.Key() {
+			kind := "output-depends-on-an-earlier-run"
+			if r.Failed != base.Failed {
+				kind = "success-depends-on-an-earlier-run"
+			}
+			cname := strings.Join(c05Cmds[ci], " ")
+			x.Violate("C05|"+cname+"|"+kind, fmt.Sprintf("input %s\nafter `%s` in the same process\n`%s`\nin a process of its own:\n%s\nafter the earlier run:\n%s", inputs[ii].Name, ec.shell(), c.shell(), base.String(), r.String()),
+				map[string]interface{}{"earlier": ec.shell(), "cmd": c.shell(), "own_process": base.String(), "after_earlier_run": r.String()})
 		}
 	})
 }
